@@ -28,7 +28,14 @@ def run(chk):
                           "or at every position) with break, continue and return at every position, enumerated exhaustively up to 2 (quick) / 3 (thorough) control nodes, each with an "
                           "emit before every statement, once with and once without an emit closing every block; the exit-tail family (then-branches and case blocks ending in return / "
                           "break / continue directly or under a nested if / else-if / switch / default / loop, followed by an else branch, an else-if chain, another case or the default; "
-                          "at top level, in for, in range, in switch-in-for); depth-bounded random skeletons with such tails; " + VECTORS +
+                          "at top level, in for, in range, in switch-in-for); depth-bounded random skeletons with such tails; "
+                          "CONDITION FORMS (optimizer-on runs only; a harness-level refinement -- the skeleton language of GoSpec/GoCtl.v and the theorems keep atomic oracle calls, "
+                          "the expected trace of a compound form is computed by the harness's Go rendering of the evaluator with Go's short-circuit order and is validated against `go build` "
+                          "on three vectors per function): every if / else-if / for condition and tagless case guard is rendered as c(k), !c(k), !!c(k), c(k) && c(k'), c(k) || c(k'), "
+                          "c(k) && !c(k'), c(k) || !c(k'), !(c(k) && c(k')) or c(k) == false (55% non-atomic), tagged switch tags as tg(k), -(-tg(k)), tg(k) + 0 or tg(k) & 15; the "
+                          "negated-condition family (tagless switches whose later cases are negated / compound after an earlier case that is taken, with and without an executed break, "
+                          "default absent / last / first, standing at top level or ending a range body, a three-clause for body with post statement or a `for { ...; break }` body, always "
+                          "followed by statements; every condition form in if, if-else and for); " + VECTORS +
                           "; every goatlang run is compared with Go's semantics (GoCtl, validated against the Go toolchain) and three runs per function with the `go build` output itself")],
         assumptions=["calls emit(l), c(k), rs(k), tg(k) in the abstract machine are atomic: PUSH/GLOBALGET/CALL of a user function returns to the next instruction with the operand stack restored and (for c, rs, tg) one result pushed (function calls are property C09's subject; tie: the run-level correspondence KRun compares real VM traces of whole functions)",
                      "the test functions have no parameters and no locals other than the compiler temporaries of range (iterator + blank key/value slot) and tagged switch (tag slot); lookup hands out slots by a counter that never decreases inside a function (checked instruction for instruction by KCode)",
